@@ -46,6 +46,21 @@ func (ss *SlotScope) SetSlot(name string, content *SlotContent) {
 	ss.Slots[name] = content
 }
 
+// destructuredNames reads a destructuring pattern of a scoped slot, v-slot="{ item, index }",
+// and returns the names it binds; ok is false when pattern is a plain variable name.
+func destructuredNames(pattern string) (names []string, ok bool) {
+	pattern = strings.TrimSpace(pattern)
+	if !strings.HasPrefix(pattern, "{") || !strings.HasSuffix(pattern, "}") {
+		return nil, false
+	}
+	for _, name := range strings.Split(pattern[1:len(pattern)-1], ",") {
+		if name = strings.TrimSpace(name); name != "" {
+			names = append(names, name)
+		}
+	}
+	return names, true
+}
+
 // evalSlot processes a <slot> element and inserts the appropriate content.
 // If slot content was provided by the component user, use that.
 // Otherwise, render the fallback content (children of the slot element).
@@ -94,8 +109,13 @@ func (v *Vue) evalSlot(ctx VueContext, node *html.Node, slotScope *SlotScope, de
 				ctx.stack.Push(nil)
 				defer ctx.stack.Pop()
 
-				// If there's a scoped variable name, use it; otherwise use the props directly
-				if scopedVarName != "" {
+				// If there's a scoped variable name, use it; a destructuring pattern ("{ item, index }")
+				// binds the named props; otherwise use the props directly
+				if names, ok := destructuredNames(scopedVarName); ok {
+					for _, name := range names {
+						ctx.stack.Set(name, slotProps[name])
+					}
+				} else if scopedVarName != "" {
 					ctx.stack.Set(scopedVarName, slotProps)
 				} else {
 					// Set the slot props directly in the context
